@@ -794,20 +794,60 @@ def sync_check(prop, tier, replay):
     edges = []
     cfg = sync_cfg(wd, "sim", dict(base, Deviations=dev_set(devs_on), EmitEdges="TRUE", ScanLimit="32"),
                    invariants=False, properties=False)
-    vlib.run_tlc("MC_Sync", cfg, prop + "s", coverage=False, workers=1, simulate=(nsim, 46),
-                 timeout_s=600, tag_sink=lambda tag, obj: edges.append(obj) if tag == "EDGE" else None)
+    vlib.run_tlc("MC_Sync", cfg, prop + "s", coverage=False, workers=1, simulate=(nsim * 6, 46),
+                 timeout_s=900, tag_sink=lambda tag, obj: edges.append(obj) if tag == "EDGE" else None)
     if not edges:
         raise ToolError("TLC emitted no behaviours")
     init_key = json.dumps(edges[0]["from"], sort_keys=True)
     behs = split_behaviours(edges, init_key)
     vlib.cargo_build()
-    paths = []
+    pool = []
     for b in behs:
         steps, settled = macro_steps(b, k)
         if not steps:
             continue
-        paths.append({"devices": devices, "client_backend": "fs", "server_backend": "fs",
-                      "settled": settled, "steps": steps})
+        pool.append({"devices": devices, "client_backend": "fs", "server_backend": "fs",
+                     "settled": settled, "steps": steps})
+
+    def merge_shapes(p):
+        """The shape of every merge a behaviour performs: at each sync of a device whose log and the
+        server's have both grown since their common prefix, the kinds of the events of the two suffixes
+        in time order (local first on ties), and whether the same event occurs on both sides."""
+        feats = set()
+        prev = None
+        for st in p["steps"]:
+            if st["act"] == "Sync" and prev is not None:
+                dev = st["args"][0]
+                loc = prev["log"].get(dev, [])
+                srv = prev["srv"]
+                n = 0
+                while n < len(loc) and n < len(srv) and loc[n] == srv[n]:
+                    n += 1
+                ls, rs = loc[n:], srv[n:]
+                if ls and rs:
+                    evs = sorted([(e["t"], 0, e["ev"]["k"]) for e in ls] + [(e["t"], 1, e["ev"]["k"]) for e in rs])
+                    shape = tuple("%s%s" % ("LR"[side], kk) for _, side, kk in evs)
+                    shared = any(a["ev"] == b["ev"] for a in ls for b in rs)
+                    feats.add(("merge", shape))
+                    if shared:
+                        feats.add(("shared", shape))
+            if "to" in st:
+                prev = st["to"]
+        return feats
+    import random
+    rng_sel = random.Random(vlib.seed())
+    rng_sel.shuffle(pool)
+    scored = [(merge_shapes(p), p) for p in pool]
+    paths, seen_f = [], set()
+    while scored and len(paths) < nsim:
+        scored.sort(key=lambda fp: -sum(10 if f[0] == "shared" else 1 for f in fp[0] - seen_f))
+        f, p = scored.pop(0)
+        if not (f - seen_f):
+            break
+        seen_f |= f
+        paths.append(p)
+    paths += [p for _, p in scored[:max(0, nsim - len(paths))]]
+    merge_shapes_covered = len(seen_f)
     if tier != "quick" and prop in ("C04", "C05"):
         # three devices: behaviours by simulation only (the exhaustive check above is for two)
         edges3 = []
@@ -850,7 +890,8 @@ def sync_check(prop, tier, replay):
                 "Non-trivial = behaviour containing a sync that needed more than status+sync requests; "
                 "distinct by action sequence.",
         "exhaustive": False, "model_exhaustive": True, "constants": base,
-        "simulated_behaviours": len(behs), "settled_behaviours": sum(1 for p in paths if p["settled"]),
+        "simulated_behaviours": len(behs), "behaviours_run": len(paths), "merge_shapes_covered": merge_shapes_covered,
+        "settled_behaviours": sum(1 for p in paths if p["settled"]),
         "action_coverage": cov, "samples": summ["samples"][:3],
         "deviations_modelled": devs_on, "counters": summ["counters"],
         "model_mismatches": len(summ["mismatches"]),
